@@ -1,9 +1,21 @@
 (* C14 — NRI/OCI conversions are lossless and copies share no state.
-   This file contains only statements closed by [exact]. *)
-From Coq Require Import String List ZArith.
-From NRI Require Import Model.Consts Model.Event Proofs.EventProofs.
+   This file contains only statements closed by [exact].
+
+   Vocabulary (Model/Convert.v mirrors pkg/api function by function; Spec/ConvertSpec.v holds
+   the projections): norm_res / norm_ores / norm_omount / norm_env_entry say exactly which part
+   of a value both representations carry; copy_view is a resource set without the v1-emulation
+   device rules, which Copy does not copy and the property does not name.  An optional scalar
+   is an [option]: None = unset, Some 0 = set to zero — equality of options is the
+   "unset-versus-zero is preserved" clause.  map_wf: an association list that represents a Go
+   map (no key twice).  "Share no state" is not expressible on immutable values; it is tested
+   on the implementation (driver "alias"), not proved. *)
+From Coq Require Import String List ZArith Permutation.
+From NRI Require Import Base.Assoc Model.Consts Model.Event Proofs.EventProofs.
+From NRI Require Import Model.Convert Spec.ConvertSpec Proofs.ConvertProofs.
 Import ListNotations.
 Open Scope Z_scope.
+
+(* ------------------------------------------------------------------ event masks *)
 
 (* parsing a printed event mask returns the same mask: every non-empty valid mask;
    valid_events is read from pkg/api/event.go on every run (8191 on the pinned tree) *)
@@ -19,3 +31,241 @@ Print Assumptions C14_mask_print_injective.
 (* non-vacuity: the domain is the one the property names *)
 Example C14_mask_domain : valid_events = 8191 /\ parse [pretty 4097] = Some 4097.
 Proof. split; reflexivity. Qed.
+
+(* ------------------------------------------------------------------ resources *)
+
+(* NRI -> OCI -> NRI returns the input up to norm_res: all eight memory fields, all seven CPU
+   fields, hugepage limits, unified, device rules and pids come back as they were (unset stays
+   unset, zero stays zero); only the two class names are lost, and a nil Memory / Cpu message
+   comes back as an empty one.  A nil resource pointer stays nil. *)
+Theorem C14_resources_nri_roundtrip : forall r : option resources,
+  res_wf r = true -> from_oci_resources (to_oci_resources r) = option_map norm_res r.
+Proof. exact from_to_resources. Qed.
+Print Assumptions C14_resources_nri_roundtrip.
+
+(* the same read field by field, as the nil-safe getters see the result *)
+Theorem C14_resources_nri_roundtrip_fields : forall r r',
+  map_wf (r_unified r) = true ->
+  from_oci_resources (to_oci_resources (Some r)) = Some r' ->
+  mem_view r' = mem_view r /\ cpu_view r' = cpu_view r /\ r_hugepages r' = r_hugepages r /\
+  r_unified r' = r_unified r /\ r_devices r' = r_devices r /\ r_pids r' = r_pids r.
+Proof. exact from_to_resources_fields. Qed.
+Print Assumptions C14_resources_nri_roundtrip_fields.
+
+(* OCI -> NRI -> OCI: lost are exactly CheckBeforeUpdate, Burst, Idle, BlockIO, Network, Rdma *)
+Theorem C14_resources_oci_roundtrip : forall o : option oresources,
+  ores_wf o = true -> to_oci_resources (from_oci_resources o) = option_map norm_ores o.
+Proof. exact to_from_resources. Qed.
+Print Assumptions C14_resources_oci_roundtrip.
+
+(* the copied unified map does not depend on the order in which Go's range visits the source *)
+Theorem C14_unified_any_iteration_order : forall m m' k,
+  map_wf m = true -> Permutation m m' -> alookup k (map_copy m') = alookup k m.
+Proof. exact map_copy_any_order. Qed.
+Print Assumptions C14_unified_any_iteration_order.
+
+Example C14_resources_example :
+  let r := mkResources (Some (mkMemory (Some 0) None (Some (-1)) None None (Some 18446744073709551615) (Some false) None))
+                       None [mkHugepage "2MB" 0] (Some "gold") None [("memory.high", "max"); ("cpu.weight", "0")]
+                       [mkDevcg true "c" (Some 0) None "rwm"] (Some 0) in
+  res_wf (Some r) = true /\
+  from_oci_resources (to_oci_resources (Some r)) = Some (norm_res r) /\
+  m_limit (mem_view (norm_res r)) = Some 0 /\ m_reservation (mem_view (norm_res r)) = None /\
+  r_cpu (norm_res r) = Some empty_cpu /\ r_blockio_class (norm_res r) = None.
+Proof. repeat split. Qed.
+
+Example C14_resources_oci_example :
+  let o := mkOResources [mkODevcg false "b" None (Some 0) "r"]
+                        (Some (mkOMemory (Some 0) None None None None (Some 0) None (Some true) (Some true)))
+                        None (Some 0) true [mkOHugepage "1GB" 18446744073709551615] false true [("io.max", "")] in
+  ores_wf (Some o) = true /\ to_oci_resources (from_oci_resources (Some o)) = Some (norm_ores o) /\
+  or_pids (norm_ores o) = Some 0 /\ or_blockio (norm_ores o) = false.
+Proof. repeat split. Qed.
+
+(* ------------------------------------------------------------------ Copy *)
+
+(* the copy equals the original in memory, CPU, hugepage, unified, pids and class fields
+   (it carries no device rules); nil stays nil *)
+Theorem C14_copy_equal : forall r : option resources,
+  res_wf r = true -> copy r = option_map copy_view r.
+Proof. exact copy_equal. Qed.
+Print Assumptions C14_copy_equal.
+
+Theorem C14_copy_fields : forall r c,
+  map_wf (r_unified r) = true -> copy (Some r) = Some c ->
+  r_memory c = r_memory r /\ r_cpu c = r_cpu r /\ r_hugepages c = r_hugepages r /\
+  r_unified c = r_unified r /\ r_pids c = r_pids r /\
+  r_blockio_class c = r_blockio_class r /\ r_rdt_class c = r_rdt_class r.
+Proof. exact copy_fields. Qed.
+Print Assumptions C14_copy_fields.
+
+Example C14_copy_example :
+  let r := mkResources (Some empty_memory) (Some (mkCpu (Some 0) (Some (-1)) None None None "0-3" ""))
+                       [mkHugepage "2MB" 1] (Some "") (Some "rdt") [("a", "b")] [mkDevcg true "a" None None "rwm"] (Some (-1)) in
+  res_wf (Some r) = true /\ copy (Some r) = Some (copy_view r) /\ r_memory (copy_view r) = Some empty_memory /\
+  r_blockio_class (copy_view r) = Some ""%string /\ r_devices (copy_view r) = [].
+Proof. repeat split. Qed.
+
+(* ------------------------------------------------------------------ mounts *)
+
+Theorem C14_mount_nri_roundtrip : forall m q, from_oci_mounts [fst (mount_to_oci m q)] = [m].
+Proof. exact from_to_mount. Qed.
+Print Assumptions C14_mount_nri_roundtrip.
+
+(* lost: the id mappings (OCI only) *)
+Theorem C14_mounts_oci_roundtrip : forall l,
+  map (fun m => fst (mount_to_oci m None)) (from_oci_mounts l) = map norm_omount l.
+Proof. exact to_from_mounts. Qed.
+Print Assumptions C14_mounts_oci_roundtrip.
+
+(* the propagation query of Mount.ToOCI: a nil pointer is not written; otherwise the string
+   ends up holding the last of the options rprivate / rshared / rslave, if there is one *)
+Theorem C14_mount_propagation_query : forall m,
+  snd (mount_to_oci m None) = None /\
+  forall s, snd (mount_to_oci m (Some s)) = Some (last (filter is_propagation (mt_options m)) s).
+Proof. exact mount_query. Qed.
+Print Assumptions C14_mount_propagation_query.
+
+Example C14_mount_example :
+  let m := mkMount "/data" "bind" "/host" ["rbind"; "rslave"; "ro"; "rprivate"]%string in
+  from_oci_mounts [fst (mount_to_oci m None)] = [m] /\
+  snd (mount_to_oci m (Some ""%string)) = Some "rprivate"%string /\
+  norm_omount (mkOMount "/d" "" "" [] [(0, 1000, 1)] []) = mkOMount "/d" "" "" [] [] [].
+Proof. repeat split. Qed.
+
+(* ------------------------------------------------------------------ devices *)
+
+(* a nil device converts to the zero OCI device, which converts back to the zero device *)
+Theorem C14_device_nri_roundtrip : forall d : option device,
+  from_oci_devices [device_to_oci d] = [match d with None => zero_device | Some d => d end].
+Proof. exact from_to_device. Qed.
+Print Assumptions C14_device_nri_roundtrip.
+
+Theorem C14_devices_oci_roundtrip : forall l : list odevice,
+  map (fun d => device_to_oci (Some d)) (from_oci_devices l) = l.
+Proof. exact to_from_devices. Qed.
+Print Assumptions C14_devices_oci_roundtrip.
+
+Example C14_device_example :
+  let d := mkDevice "/dev/null" "c" 1 3 (Some 0) None (Some 4294967295) in
+  from_oci_devices [device_to_oci (Some d)] = [d] /\
+  od_file_mode (device_to_oci (Some d)) = Some 0 /\ od_uid (device_to_oci (Some d)) = None.
+Proof. repeat split. Qed.
+
+(* ------------------------------------------------------------------ hooks *)
+
+Theorem C14_hooks_nri_roundtrip : forall h : hooks, from_oci_hooks (Some (hooks_to_oci h)) = Some h.
+Proof. exact from_to_hooks. Qed.
+Print Assumptions C14_hooks_nri_roundtrip.
+
+Theorem C14_hooks_oci_roundtrip : forall o : option ohooks, option_map hooks_to_oci (from_oci_hooks o) = o.
+Proof. exact to_from_hooks. Qed.
+Print Assumptions C14_hooks_oci_roundtrip.
+
+Example C14_hooks_example :
+  let h := mkHooks [mkHook "/bin/a" ["a"; ""]%string ["K=v"]%string (Some 0)] [] [] [mkHook "" [] [] None] [] [] in
+  from_oci_hooks (Some (hooks_to_oci h)) = Some h /\
+  map ohk_timeout (ohs_prestart (hooks_to_oci h)) = [Some 0] /\
+  map ohk_timeout (ohs_start_container (hooks_to_oci h)) = [None].
+Proof. repeat split. Qed.
+
+(* ------------------------------------------------------------------ environment *)
+
+(* kv_wf: the key contains no '=' (it may even be empty; values are arbitrary) *)
+Theorem C14_env_nri_roundtrip : forall l : list keyvalue,
+  forallb kv_wf l = true -> from_oci_env (to_oci_env l) = l.
+Proof. exact from_to_env. Qed.
+Print Assumptions C14_env_nri_roundtrip.
+
+(* an entry that contains '=' comes back unchanged, one without comes back with '=' appended *)
+Theorem C14_env_oci_roundtrip : forall l : list string,
+  to_oci_env (from_oci_env l) = map norm_env_entry l.
+Proof. exact to_from_env. Qed.
+Print Assumptions C14_env_oci_roundtrip.
+
+Theorem C14_env_entry_with_eq_unchanged : forall s, no_eq s = false -> norm_env_entry s = s.
+Proof. exact norm_env_entry_id. Qed.
+Print Assumptions C14_env_entry_with_eq_unchanged.
+
+Example C14_env_example :
+  let l := [mkKV "PATH" "/bin:/usr/bin"; mkKV "OPTS" "a=b=c"; mkKV "EMPTY" ""; mkKV "" "v"]%string in
+  forallb kv_wf l = true /\ to_oci_env l = ["PATH=/bin:/usr/bin"; "OPTS=a=b=c"; "EMPTY="; "=v"]%string /\
+  from_oci_env (to_oci_env l) = l /\
+  (* the hypothesis is needed: '=' in a key moves to the value *)
+  from_oci_env (to_oci_env [mkKV "a=b" "c"]) = [mkKV "a" "b=c"] /\
+  to_oci_env (from_oci_env ["NOEQ"; "K=v=w"]%string) = ["NOEQ="; "K=v=w"]%string.
+Proof. repeat split. Qed.
+
+(* ------------------------------------------------------------------ optional constructors *)
+
+(* ctor_expect is the specification read off the property (nil -> unset, a value of an accepted
+   type that the target can hold -> exactly that value); arg_wf: the argument lies in the range
+   of its Go type *)
+Theorem C14_optional_ctor_spec : forall k a e,
+  arg_wf a = true -> ctor_expect k a = Some e -> ctor k a = e.
+Proof. exact optional_ctor_spec. Qed.
+Print Assumptions C14_optional_ctor_spec.
+
+(* nil in any form (untyped, nil pointer, nil wrapper), handed to any constructor, is unset *)
+Theorem C14_optional_nil_is_unset : forall k a, is_nil_arg a = true -> ctor k a = unset_of k.
+Proof. exact ctor_nil_unset. Qed.
+Print Assumptions C14_optional_nil_is_unset.
+
+(* Get returns what the constructor stored: unset for unset, the value (zero included) otherwise *)
+Theorem C14_optional_get : forall k a, getter k (ctor k a) = ctor k a.
+Proof. exact getter_ctor. Qed.
+Print Assumptions C14_optional_get.
+
+(* I8: a value of the other signedness that the target cannot hold is wrapped (two's complement) *)
+Theorem C14_optional_wrap_Int64 : forall v, 0 <= v < two64 ->
+  ctor KInt64 (GUint64 v) = OZ (Some (if v <? two63 then v else v - two64)) /\
+  ctor KInt64 (GUint v) = OZ (Some (if v <? two63 then v else v - two64)) /\
+  ctor KInt64 (GPUint64 (Some v)) = OZ (Some (if v <? two63 then v else v - two64)).
+Proof. exact optional_wrap_Int64. Qed.
+Print Assumptions C14_optional_wrap_Int64.
+
+Theorem C14_optional_wrap_UInt64 : forall v, - two63 <= v < two63 ->
+  ctor KUInt64 (GInt64 v) = OZ (Some (if 0 <=? v then v else v + two64)) /\
+  ctor KUInt64 (GInt v) = OZ (Some (if 0 <=? v then v else v + two64)) /\
+  ctor KUInt64 (GPInt64 (Some v)) = OZ (Some (if 0 <=? v then v else v + two64)).
+Proof. exact optional_wrap_UInt64. Qed.
+Print Assumptions C14_optional_wrap_UInt64.
+
+(* an argument whose type the constructor's type switch does not list yields unset (the code's
+   default branch; recorded, not judged: no call site in the repository does this) *)
+Theorem C14_optional_unsupported_type_is_unset : forall k a,
+  ctor_accepts k a = false -> ctor k a = unset_of k.
+Proof. exact ctor_unsupported_unset. Qed.
+Print Assumptions C14_optional_unsupported_type_is_unset.
+
+Example C14_optional_example :
+  arg_wf (GPInt64 (Some 0)) = true /\ ctor_expect KInt64 (GPInt64 (Some 0)) = Some (OZ (Some 0)) /\
+  ctor KInt64 (GPInt64 (Some 0)) = OZ (Some 0) /\ ctor KInt64 (GPInt64 None) = OZ None /\
+  ctor KBool (GBool false) = OB (Some false) /\ ctor KString (GString "") = OS (Some ""%string) /\
+  ctor KUInt32 (GUint32 4294967295) = OZ (Some 4294967295) /\
+  ctor KInt64 (GUint64 18446744073709551615) = OZ (Some (-1)) /\
+  ctor KUInt64 (GInt64 (-9223372036854775808)) = OZ (Some 9223372036854775808) /\
+  ctor_expect KInt64 (GUint64 18446744073709551615) = None /\
+  ctor KInt32 (GInt 5) = OZ None /\ is_nil_arg (GOptFileMode None) = true.
+Proof. repeat split. Qed.
+
+(* ------------------------------------------------------------------ the run-time predicates *)
+
+(* every boolean predicate that ./check evaluates on the implementation's observations
+   (Run/RunC14.v holds_conv, holds_copy, holds_opt) decides exactly the equation of the
+   corresponding theorem above *)
+Theorem C14_predicates_reflect :
+  (forall r back, rt_res_nri r back = true <-> back = option_map norm_res r) /\
+  (forall o back, rt_res_oci o back = true <-> back = option_map norm_ores o) /\
+  (forall r c, copy_ok r c = true <-> c = option_map copy_view r) /\
+  (forall m back, rt_mount_nri m back = true <-> back = [m]) /\
+  (forall o back, rt_mounts_oci o back = true <-> back = map norm_omount o) /\
+  (forall d back, rt_device_nri d back = true <-> back = [match d with None => zero_device | Some d => d end]) /\
+  (forall o back, rt_devices_oci o back = true <-> back = o) /\
+  (forall h back, rt_hooks_nri h back = true <-> back = Some h) /\
+  (forall o back, rt_hooks_oci o back = true <-> back = o) /\
+  (forall l back, forallb kv_wf l = true -> (rt_env_nri l back = true <-> back = l)) /\
+  (forall l back, rt_env_oci l back = true <-> back = map norm_env_entry l) /\
+  (forall k a res got e, ctor_expect k a = Some e -> (ctor_ok k a res got = true <-> got = res /\ res = e)).
+Proof. exact predicates_reflect. Qed.
+Print Assumptions C14_predicates_reflect.
